@@ -68,6 +68,9 @@ type Case struct {
 	// (Go variants: PushContex/ParserInit/Parser/PopContex, or a second context with -o) before doing its own work
 	NestRule  int   `json:"nestrule,omitempty"`
 	NestInput []int `json:"nestinput,omitempty"`
+	// input of the parse nested inside the nested parse (depth 2); different from NestInput so that a stack
+	// shared between the two levels shows
+	NestInput2 []int `json:"nestinput2,omitempty"`
 }
 
 func isLitSym(s string) bool { return len(s) >= 3 && s[0] == '\'' && s[len(s)-1] == '\'' }
@@ -1039,6 +1042,48 @@ func GenSessionProbe(r *rand.Rand, id string) *Case {
 	}
 	if r.Intn(2) == 0 {
 		c.Rules = append(c.Rules, Rule{Lhs: "L", Rhs: []string{"L", "b", "L"}, Act: Act{Kind: "int", Args: []int{1, 3}, Coefs: []int{0, 1, 1}}})
+	}
+	return c
+}
+
+// GenOpts: conflict-free grammars in the "options defined after use" style: nonterminals that are nullable
+// only through other nonterminals whose empty rules come LATER in the file, standing where a look-ahead has
+// to pass through them (nullable computation needs several passes in rule order).
+func GenOpts(r *rand.Rand, id string) *Case {
+	c := &Case{ID: id, Family: "opts", Start: "S", Types: map[string]string{}}
+	n := 2 + r.Intn(3)
+	c.Tokens = append(c.Tokens, Tok{Name: "h"}, Tok{Name: "x"})
+	c.Rules = append(c.Rules, Rule{Lhs: "S", Rhs: []string{"H", "O0", "x"}})
+	c.Rules = append(c.Rules, Rule{Lhs: "H", Rhs: []string{"h"}})
+	// O0 -> O1 O2 ... (nested groups), leaves Pk -> | tk, all defined after use
+	depth := 1 + r.Intn(2)
+	var leaves []string
+	var build func(name string, d int)
+	cnt := 0
+	build = func(name string, d int) {
+		k := 2 + r.Intn(2)
+		if k > n {
+			k = n
+		}
+		var parts []string
+		for i := 0; i < k; i++ {
+			cnt++
+			parts = append(parts, fmt.Sprintf("P%d", cnt))
+		}
+		c.Rules = append(c.Rules, Rule{Lhs: name, Rhs: parts})
+		for _, pn := range parts {
+			if d < depth && r.Intn(2) == 0 {
+				build(pn, d+1)
+			} else {
+				leaves = append(leaves, pn)
+			}
+		}
+	}
+	build("O0", 0)
+	for i, l := range leaves {
+		t := fmt.Sprintf("t%d", i)
+		c.Tokens = append(c.Tokens, Tok{Name: t})
+		c.Rules = append(c.Rules, Rule{Lhs: l, Rhs: []string{}}, Rule{Lhs: l, Rhs: []string{t}})
 	}
 	return c
 }
